@@ -27,8 +27,16 @@ class FreshCtx:
     def ind(self):
         return np.array([int(self.rng.integers(0, k)) for k in self.n])
 
+    SPECIAL_SEEDS = [0, 0, 1, 2 ** 32 - 1, 2 ** 63 - 1, 2 ** 64 + 5]
+
+    def draw_seed(self):
+        # "all integer seeds": mostly ordinary ones, now and then a boundary value (0 is falsy!)
+        if self.rng.random() < 0.15:
+            return self.SPECIAL_SEEDS[int(self.rng.integers(0, len(self.SPECIAL_SEEDS)))]
+        return int(self.rng.integers(0, 1 << 31))
+
     def seed(self):
-        s = int(self.rng.integers(0, 1 << 31))
+        s = self.draw_seed()
         if self.seed_mode == 'generator':
             self.seed_value = np.random.Generator(np.random.PCG64(s))
         else:
